@@ -110,6 +110,16 @@ def widen(p, mode, rng):
     a = q["args"]
     if p["kind"] == "cat":
         return q
+    if mode == "far":            # the range used to be two orders of magnitude wider
+        if a.get("log"):
+            a["low"], a["high"] = (max(1, a["low"] // 100), a["high"] * 100) if p["kind"] == "int" else (a["low"] / 100.0, a["high"] * 100.0)
+        else:
+            unit = a.get("step", 1) if p["kind"] == "int" else (a.get("step") or 0.0)
+            w = 100 * max(a["high"] - a["low"], unit, 1 if p["kind"] == "int" else 1e-12)
+            if a.get("step") is not None:
+                w = round(w / a["step"]) * a["step"]
+            a["low"], a["high"] = a["low"] - w, a["high"] + w
+        return q
     if p["kind"] == "int":
         if a.get("log"):
             a["low"], a["high"] = max(1, a["low"] // 2), a["high"] * 2 + 1
@@ -174,7 +184,7 @@ def candidate_values(od, p, rng):
 def make_scenarios(ctx, od):
     rng = ctx.rng
     pool, extra = param_pool()
-    per_sampler = ({"random": 50, "tpe": 50, "tpe_mv": 60, "qmc": 40, "gp": 12, "nsga2": 40, "nsga3": 20, "partial": 30,
+    per_sampler = ({"random": 50, "tpe": 50, "tpe_mv": 60, "qmc": 40, "gp": 10, "nsga2": 40, "nsga3": 20, "partial": 30,
                     "brute": 20, "grid": 20} if ctx.quick else
                    {"random": 700, "tpe": 700, "tpe_mv": 800, "qmc": 600, "gp": 120, "nsga2": 500, "nsga3": 300,
                     "partial": 400, "brute": 300, "grid": 300})
@@ -200,7 +210,12 @@ def make_scenarios(ctx, od):
                 if not ok:
                     ok = {"p0": {"kind": "int", "args": {"low": -2, "high": 3, "step": 2}, "K": 0}}
                 params = ok
-            hist = rng.choice(["none", "same", "same", "wider", "misaligned"])
+            if sampler == "gp":          # optim_mixed enumerates the whole grid of a discrete parameter (np.arange): keep it small
+                for nm, p in list(params.items()):
+                    g = grid_size(od, p)
+                    if g is not None and g > 2000:
+                        params[nm] = {"kind": "int", "args": {"low": 0, "high": 100, "step": 7}, "K": 0}
+            hist = rng.choice(["none", "same", "same", "wider", "misaligned", "far"])
             if sampler in ("brute", "grid"):
                 hist = rng.choice(["none", "same"])
             storage = "mem"
@@ -249,6 +264,23 @@ def make_scenarios(ctx, od):
                         other["args"]["log"] = not p["args"].get("log", False)
                     plan["incompat"] = {nm: other}
                 sc["trials"].append(plan)
+            scs.append(sc)
+    # systematic block: every history-using sampler x narrow domains whose earlier range was far wider
+    narrow = [{"kind": "float", "args": {"low": 40.0, "high": 41.0}, "K": 1},
+              {"kind": "float", "args": {"low": 0.999, "high": 1.001, "log": True}, "K": 4},
+              {"kind": "float", "args": {"low": -1e6, "high": -999999.0}, "K": 1},
+              {"kind": "float", "args": {"low": 0.1, "high": 0.7, "step": 0.1}, "K": 2},
+              {"kind": "int", "args": {"low": -7, "high": 8, "step": 5}, "K": 0},
+              {"kind": "int", "args": {"low": 3, "high": 1000, "log": True}, "K": 0}]
+    for sampler in ("random", "tpe", "tpe_mv", "qmc", "gp", "nsga2", "nsga3", "partial"):
+        for j, p in enumerate(narrow):
+            params = {"p0": copy.deepcopy(p), "p1": copy.deepcopy(narrow[(j + 1) % len(narrow)])}
+            sc = {"sampler": sampler, "seed": rng.randrange(2 ** 31), "storage": "mem", "params": params, "hist": "far",
+                  "n_hist": 4, "sid": len(scs),
+                  "trials": [{"enqueue": None, "redeclare": None, "incompat": None} for _ in range(3)]}
+            if sampler == "partial":
+                ins, _ = candidate_values(od, params["p1"], rng)
+                sc["pf"], sc["base"] = {"p1": ins[0]}, "tpe_mv"
             scs.append(sc)
     return scs
 
@@ -303,14 +335,14 @@ def run_scenario(sc: dict) -> list:
     import optuna.distributions as od
     tmp = None
     if sc["storage"] == "sqlite":
-        tmp = tempfile.mkdtemp(prefix="c10-", dir=tlc.scratch())
+        tmp = tempfile.mkdtemp(prefix="c10-", dir=sc.get("scratch") or tlc.scratch())
         url = f"sqlite:///{tmp}/s.db"
         storage = optuna.storages.RDBStorage(url)
         fresh = lambda: optuna.storages.RDBStorage(url)   # noqa
     elif sc["storage"] == "journal":
         from optuna.storages import JournalStorage
         from optuna.storages.journal import JournalFileBackend
-        tmp = tempfile.mkdtemp(prefix="c10-", dir=tlc.scratch())
+        tmp = tempfile.mkdtemp(prefix="c10-", dir=sc.get("scratch") or tlc.scratch())
         path = f"{tmp}/j.log"
         storage = JournalStorage(JournalFileBackend(path))
         fresh = lambda: JournalStorage(JournalFileBackend(path))   # noqa
@@ -325,7 +357,7 @@ def run_scenario(sc: dict) -> list:
     # ---- prior history (not judged): the same names, possibly under different ranges
     def hist_objective(trial):
         for nm, p in params.items():
-            q = p if sc["hist"] == "same" or rng.random() < 0.3 else widen(p, sc["hist"], rng)
+            q = p if sc["hist"] == "same" or (sc["hist"] != "far" and rng.random() < 0.3) else widen(p, sc["hist"], rng)
             call(trial, nm, q)
         return rng.random()
     if sc["n_hist"]:
@@ -441,6 +473,8 @@ _THREAD_ENV = ("OMP_NUM_THREADS", "OPENBLAS_NUM_THREADS", "MKL_NUM_THREADS", "NU
 def execute(scs, workers=16):
     """Run the scenarios on a pool of freshly spawned single-threaded interpreters (BLAS/OpenMP pools of 16 forked
     workers spinning against each other made the run 20x slower on a loaded machine)."""
+    for s in scs:
+        s["scratch"] = tlc.scratch()          # the parent's per-run directory (removed by the CLI on exit)
     slow = [s for s in scs if s["sampler"] == "gp"]
     rest = [s for s in scs if s["sampler"] != "gp"]
     chunks = [slow[i:i + 2] for i in range(0, len(slow), 2)] + [rest[i:i + 8] for i in range(0, len(rest), 8)]
@@ -508,7 +542,7 @@ def branch_counts(v, metas):
 def run(ctx):
     ctx.rule = ("scenarios = declared parameters (decimal lattice of Float/Int domains incl. non-dividing steps and single "
                 "points + named extreme shapes + mixed-type categoricals) x 10 built-in sampler configurations x prior "
-                "history (none / same ranges / wider / misaligned ranges, enough trials to leave start-up) x enqueued "
+                "history (none / same ranges / wider / misaligned / 100x wider ranges, enough trials to leave start-up) x enqueued "
                 "values (in and out of range) x storage (in-memory; samples on SQLite and journal file, re-read through a "
                 "fresh storage object); every judged trial is one trace validated by TLC against SuggestTrace; distinct = "
                 "distinct (sampler, event sequence) traces with at least one sampled value")
